@@ -136,11 +136,20 @@ CHECKS.update({
              '(parse, parsestream, split, format give the same result for str, stream, UTF-8 bytes, bytes+matching codec), '
              'C19_parse_is_stream and C19_single_decode over facts extracted from the source AST on every run; C19_latin1 (bytes that are not '
              'UTF-8 decode as Latin-1, all byte strings; the fallback codec name is regenerated from the source; for the former '
-             'unicode-escape fallback the statement is refuted with the exact boundary: C19_latin1_refuted/_exact; that defect was '
-             'repaired in /repo by a fix: commit). The CLI is covered by a direct oracle over every flag x channel x encoding '
-             '(three listed CLI findings).',
-        note='Partial: CLI by exploration only; codecs other than UTF-8/Latin-1 enter as a round-trip hypothesis. Three open findings, one fixed.',
-        design='7/C19', technique='Coq proof (codec round-trip, decode ladder, AST facts) + decode correspondence + CLI oracle'),
+             'unicode-escape fallback the statement is refuted with the exact boundary; that defect was repaired in /repo by a fix: commit). '
+             'COMMAND LINE inside the model (Props/C19cli.v): the argparse table of create_parser() and the input/output handling of '
+             'main() are REGENERATED from the source (Gen/CliTab.v, fail-closed); an executable model of the argparse subset '
+             '(exact/abbreviated/`=`/glued/clustered flags, type=int, type=bool, choices, errors) and of main; C19cli_options_spec (every '
+             'documented flag in every spelling maps to exactly the documented option and value; last one wins), C19cli_defaults_off, '
+             'C19cli_semantics_family (1536 command lines: the CLI filter stack equals that of format(**meant)), '
+             'C19cli_writes_format_stdout/_outfile (file or stdin, stdout or -o: the bytes written are encode(format(decode(input), options)) '
+             'for ANY format function, under the explicit guards), C19cli_default_encoding_utf8; the three guards are shown necessary by '
+             'refutations that are exactly the three listed CLI findings (universal newlines, type=bool flags, unencodable -o output). '
+             'Tied to the code by the decode correspondence, by in-process runs of the real sqlparse.cli against the extracted model '
+             '(format replaced from outside by a marker function) and by the front-end oracle over every flag x channel x encoding.',
+        note='Partial: codecs other than UTF-8/Latin-1 enter as a round-trip hypothesis; abbreviated/clustered flag spellings are in the model '
+             'and correspondence-tested but outside cli_options_spec. Three open CLI findings, one API finding fixed.',
+        design='7/C19', technique='Coq proof (codec round-trip, decode ladder, regenerated CLI table + argparse/main model) + correspondence + oracle'),
     'C20': dict(
         text='Coq proofs for ANY number of threads and ANY interleaving of the statements of Lexer.get_default_instance (instruction list '
              'translated from the source on every run): C20_sched_init_safe, _same_instance, _single_init, _never_replaced, no-deadlock under '
